@@ -41,6 +41,11 @@ class HarnessError(Exception):
     pass
 
 
+class BusyLoop(BaseException):
+    """injected by the wall-clock monitor into a simulated thread that ran for many real seconds without reaching
+    any yield point: the code under test is spinning"""
+
+
 class SimThread:
     __slots__ = ("idx", "name", "sem", "state", "pred", "deadline", "timed_out", "real",
                  "ord", "died", "settling", "why")
